@@ -14,11 +14,11 @@ ASSUMPTIONS = ["harness-side wrappers observe every trade/adjust (class-level, b
 
 
 def plan(tier):
-    n = 1500 if tier == "quick" else 40000
-    m = 300 if tier == "quick" else 8000
+    n = 1500 if tier == "quick" else 16000
+    m = 300 if tier == "quick" else 3200
     return [dict(unit="w1", n=n, builds=["py", "so"], case_timeout=60), dict(unit="w2", n=m, builds=["py", "so"], case_timeout=120),
-            dict(unit="fi", n=300 if tier == "quick" else 8000, builds=["py", "so"], case_timeout=60),
-            dict(unit="w2lev", n=300 if tier == "quick" else 6000, builds=["py", "so"], case_timeout=120)]
+            dict(unit="fi", n=300 if tier == "quick" else 3200, builds=["py", "so"], case_timeout=60),
+            dict(unit="w2lev", n=300 if tier == "quick" else 2400, builds=["py", "so"], case_timeout=120)]
 
 
 def floors(tier):
